@@ -42,7 +42,10 @@ META = {
                 'Extracted/Graph.lean and the model deletes by the extracted column; the rest of destroySelf is control flow, tied by the differential run'],
     'modelled': ['SQLite engine (DELETE / UPDATE / lazy cursor of the dependent select; executed, not verified)',
                  'Python recursion limit modelled as fuel; weakref/GC of cached instances not modelled (instances are held by the harness)'],
-    'assumptions': ['the transaction scenario has no Lean model of Transaction.commit: the model answer used for it is the plain destroySelf '
+    'assumptions': ['the inheritance scenario (InheritableSQLObject hierarchies of 2-3 levels as victims and closure members, keys to and from every '
+                    'level) has no Lean model: it is decided by the object-level closure oracle only (success: every level of every closure '
+                    'object gone; refusal: the victim is not partly deleted)',
+                    'the transaction scenario has no Lean model of Transaction.commit: the model answer used for it is the plain destroySelf '
                     'result (what the parent must show after commit); what decides it is the oracle (NotFound for every closure member)',
                     'classes live in one registry and are plain SQLObject classes (no InheritableSQLObject, no per-connection instances)',
                     'foreign keys hold ids of the target class or NULL; SQLite foreign-key enforcement is off (the default)'],
@@ -587,8 +590,332 @@ def nontrivial(case):
     return False
 
 
+
+# ------------------------------------------------------------------ inheritance scenario (oracle only; no Lean model)
+# An InheritableSQLObject is one object stored as a row per level (root table ... leaf table) under one id.  References
+# may point at any level; destroySelf of the object has to honour the policies of the references to every level.
+H_NAMES = ['P', 'Q', 'G']     # root, child, grandchild
+X_NAMES = ['X', 'Y']          # plain classes
+K_PART = 'C12:refused-destroySelf-deleted-part-of-the-victim'
+_hbuilt = {}
+
+
+def h_levels(case):
+    return H_NAMES[:case['depth']]
+
+
+def h_attr(cls, n):
+    return 'f%s%d' % (cls.lower(), n)
+
+
+def h_build(case):
+    key = (json.dumps([case['depth'], case['plains'], case['fks']], sort_keys=True), case['cache'])
+    if key in _hbuilt:
+        return _hbuilt[key]
+    sqlo.setup()
+    from sqlobject import SQLObject, ForeignKey
+    from sqlobject.inheritance import InheritableSQLObject
+    reg = sqlo.uniq('c12hreg')
+    conn = sqlo.mem_conn(cache=case['cache'])
+    classes = {}
+
+    def cols(name):
+        return {h_attr(name, n): ForeignKey(t, cascade=POL[p], default=None) for n, (t, p) in enumerate(case['fks'][name])}
+    parent = None
+    for name in h_levels(case):
+        d = cols(name)
+        if parent is None:
+            d.update({'sqlmeta': type('sqlmeta', (), {'registry': reg}), '_connection': conn})
+            classes[name] = type(name, (InheritableSQLObject,), d)
+        else:
+            classes[name] = type(name, (parent,), d)
+        parent = classes[name]
+    for name in case['plains']:
+        d = cols(name)
+        d.update({'sqlmeta': type('sqlmeta', (), {'registry': reg}), '_connection': conn})
+        classes[name] = type(name, (SQLObject,), d)
+    for cls in classes.values():
+        cls.createTable()
+    if len(_hbuilt) > 200:
+        _hbuilt.clear()
+    _hbuilt[key] = (conn, classes)
+    return _hbuilt[key]
+
+
+def h_rows(case):
+    """level rows of the population: {(class name, id): [values]} and the object owning each row"""
+    rows, owner = {}, {}
+    hid = 0
+    pid = {}
+    for n, ob in enumerate(case['objects']):
+        if ob[0] == 'h':
+            hid += 1
+            for lv in h_levels(case)[:ob[1] + 1]:
+                rows[(lv, hid)] = list(ob[2][lv])
+                owner[(lv, hid)] = n
+        else:
+            pid[ob[1]] = pid.get(ob[1], 0) + 1
+            rows[(ob[1], pid[ob[1]])] = list(ob[2])
+            owner[(ob[1], pid[ob[1]])] = n
+    return rows, owner
+
+
+def h_populate(case):
+    conn, classes = h_build(case)
+    for cls in classes.values():
+        conn.query('DELETE FROM %s' % cls.sqlmeta.table)
+    conn.query('DELETE FROM sqlite_sequence')      # ids are AUTOINCREMENT: start again at 1
+    conn.cache.clear()
+    held = []
+    hid = 0
+    pid = {}
+    for ob in case['objects']:
+        if ob[0] == 'h':
+            hid += 1
+            leaf = h_levels(case)[ob[1]]
+            kw = {}
+            for lv in h_levels(case)[:ob[1] + 1]:
+                for n, v in enumerate(ob[2][lv]):
+                    if v is not None:
+                        kw[h_attr(lv, n) + 'ID'] = v
+            o = classes[leaf](**kw)
+            assert o.id == hid, 'harness: planned id %d, got %d' % (hid, o.id)
+        else:
+            pid[ob[1]] = pid.get(ob[1], 0) + 1
+            kw = {h_attr(ob[1], n) + 'ID': v for n, v in enumerate(ob[2]) if v is not None}
+            o = classes[ob[1]](**kw)
+            assert o.id == pid[ob[1]], 'harness: planned id %d, got %d' % (pid[ob[1]], o.id)
+        held.append(o)
+    return conn, classes, held
+
+
+def h_dump(case, conn, classes):
+    out = {}
+    for name, cls in classes.items():
+        cols = ''.join(', %s_id' % h_attr(name, n) for n in range(len(case['fks'][name])))
+        for r in conn.queryAll('SELECT id%s FROM %s ORDER BY id' % (cols, cls.sqlmeta.table)):
+            out[(name, r[0])] = list(r[1:])
+    return out
+
+
+def h_oracle(case):
+    rows, owner = h_rows(case)
+    members = {}
+    for k, n in owner.items():
+        members.setdefault(n, []).append(k)
+    closure = {case['victim']}
+    changed = True
+    while changed:
+        changed = False
+        for (cls, i), vals in rows.items():
+            if owner[(cls, i)] in closure:
+                continue
+            for n, v in enumerate(vals):
+                t, p = case['fks'][cls][n]
+                if p == 'c' and v is not None and owner.get((t, v)) in closure:
+                    closure.add(owner[(cls, i)])
+                    changed = True
+                    break
+    restrictors = []
+    for (cls, i), vals in rows.items():
+        for n, v in enumerate(vals):
+            t, p = case['fks'][cls][n]
+            if p == 'r' and v is not None and owner.get((t, v)) in closure:
+                restrictors.append(((cls, i), n, owner[(cls, i)] in closure))
+    exp = {}
+    for (cls, i), vals in rows.items():
+        if owner[(cls, i)] in closure:
+            continue
+        nv = []
+        for n, v in enumerate(vals):
+            t, p = case['fks'][cls][n]
+            nv.append(None if (p == 'n' and v is not None and owner.get((t, v)) in closure) else v)
+        exp[(cls, i)] = nv
+    return {'rows': rows, 'owner': owner, 'members': members, 'closure': closure, 'restrictors': restrictors, 'expected': exp}
+
+
+K_HNULL = 'C12:null-key-declared-on-inheritable-parent-level'
+
+
+def h_null_on_parent_level(case, o):
+    """some hierarchy object references the closure through a 'null' key declared above its leaf level"""
+    levels = h_levels(case)
+    for (cls, i), vals in o['rows'].items():
+        if cls not in levels:
+            continue
+        leaf = max(levels.index(k[0]) for k in o['members'][o['owner'][(cls, i)]])
+        if levels.index(cls) < leaf:
+            for n, v in enumerate(vals):
+                t, p = case['fks'][cls][n]
+                if p == 'n' and v is not None and o['owner'].get((t, v)) in o['closure']:
+                    return True
+    return False
+
+
+def h_run(ctx, case):
+    import sqlobject
+    conn, classes, held = h_populate(case)
+    o = h_oracle(case)
+    vrows = sorted(o['members'][case['victim']], key=lambda k: (H_NAMES + X_NAMES).index(k[0]))
+    root_cls, vid = vrows[0]
+    limit = sys.getrecursionlimit()
+    try:
+        sys.setrecursionlimit(400)
+        try:
+            classes[root_cls].get(vid).destroySelf()
+            outcome = 'ok'
+        except sqlobject.main.SQLObjectIntegrityError:
+            outcome = 'refused'
+        except RecursionError:
+            outcome = 'fuel'
+        except Exception as e:
+            outcome = 'error:' + sqlo.exc_name(e)
+    finally:
+        sys.setrecursionlimit(limit)
+    after = h_dump(case, conn, classes)
+    kind = 'inherit/%s/depth%d/victim-%s' % (outcome, case['depth'], vrows[-1][0])
+    ctx.case(('inherit', json.dumps(case, sort_keys=True)), nontrivial=len(o['closure']) > 1 or bool(o['restrictors']),
+             sample={'case': case, 'outcome': outcome}, kind=kind)
+    if outcome == 'error:Other(AttributeError)' and h_null_on_parent_level(case, o):
+        ctx.oracle_fail(K_HNULL, 'an object of an inheritable CHILD class references a row of the closure through a cascade=\'null\' key '
+                        'declared on its PARENT class: destroySelf of the referenced object raises AttributeError (the child instance '
+                        'has no _SO_val_<key>ID), nothing is deleted or NULLed', case)
+        return
+    if outcome.startswith('error') or outcome == 'fuel':
+        ctx.oracle_fail('C12:inherit:%s' % outcome, 'destroySelf of an inheritable object raised %s' % outcome, case)
+        return
+    if outcome == 'refused':
+        if not o['restrictors']:
+            ctx.oracle_fail('C12:inherit:refused-without-restriction', 'destroySelf refused, no cascade=False reference into the closure', case)
+            return
+        # the refusal must not have deleted a part of the victim: as long as the row of its root level is there,
+        # the rows of all its levels are, and it still loads as what it was.  (A root-level row that is gone means the
+        # refusal came from a restriction on a deeper level after the upper levels were destroyed: the partial
+        # destruction recorded under property C06, counted here, not judged.)
+        if vrows[0] in after:
+            missing = [k for k in vrows if k not in after]
+            loaded = None
+            try:
+                loaded = type(classes[root_cls].get(vid)).__name__
+            except sqlobject.SQLObjectNotFound:
+                loaded = 'SQLObjectNotFound'
+            except Exception as e:
+                loaded = 'error:' + sqlo.exc_name(e)
+            if missing or loaded != vrows[-1][0]:
+                ctx.oracle_fail(K_PART, 'destroySelf of %s %d was refused (cascade=False reference), but the rows %r of the victim are '
+                                'deleted while its %s-level row is still there; %s.get(%d) gives %s'
+                                % (vrows[-1][0], vid, missing, root_cls, root_cls, vid, loaded), case)
+        else:
+            ctx.count('inherit: refused at a deeper level after the upper levels were destroyed (property C06)')
+        return
+    # returned normally
+    if o['restrictors']:
+        if all(inside for _, _, inside in o['restrictors']):
+            ctx.count('inherit: restricting rows only inside the closure (order dependent, not judged)')
+        else:
+            ctx.oracle_fail('C12:inherit:not-refused', 'destroySelf succeeded although %r reference the closure through a cascade=False key'
+                            % (o['restrictors'],), case)
+        return
+    if after != o['expected']:
+        ctx.oracle_fail('C12:inherit:rows', 'tables after destroySelf %r, the reference graph deletion gives %r'
+                        % (sorted(after.items()), sorted(o['expected'].items())), case)
+        return
+    for n in sorted(o['closure']):
+        for (cls, i) in o['members'][n]:
+            try:
+                classes[cls].get(i)
+                ctx.oracle_fail('C12:inherit:reachable', '%s.get(%d) still answers after the object was destroyed (cache=%s)' % (cls, i, case['cache']), case)
+                return
+            except sqlobject.SQLObjectNotFound:
+                pass
+    for n, ks in o['members'].items():
+        if n in o['closure']:
+            continue
+        ks = sorted(ks, key=lambda k: (H_NAMES + X_NAMES).index(k[0]))
+        try:
+            got = type(classes[ks[0][0]].get(ks[0][1])).__name__
+        except Exception as e:
+            got = sqlo.exc_name(e)
+        if got != ks[-1][0]:
+            ctx.oracle_fail('C12:inherit:survivor', 'surviving %s %d loads as %s' % (ks[-1][0], ks[0][1], got), case)
+            return
+
+
+def gen_inherit_case(rng, cached):
+    depth = rng.choice([2, 2, 3])
+    levels = H_NAMES[:depth]
+    plains = X_NAMES[:rng.choice([1, 2, 2])]
+    names = levels + plains
+    fks = {}
+    for nme in names:
+        fks[nme] = []
+        for _ in range(rng.choice([0, 1, 1, 2])):
+            t = rng.choice(levels) if rng.random() < 0.65 else rng.choice(names)
+            fks[nme].append([t, rng.choice(['c', 'c', 'c', 'r', 'r', 'n', 'k'])])
+    objects = []
+    have = {nme: [] for nme in names}     # ids of earlier objects that have a row in that class
+    hid = 0
+    pid = {}
+
+    def pick(t):
+        return rng.choice(have[t]) if have[t] and rng.random() < 0.75 else None
+    for _ in range(rng.choice([3, 4, 5, 6, 7])):
+        if rng.random() < 0.55:
+            leaf = rng.randrange(depth)
+            vals = {lv: [pick(t) for t, p in fks[lv]] for lv in levels[:leaf + 1]}
+            hid += 1
+            for lv in levels[:leaf + 1]:
+                have[lv].append(hid)
+            objects.append(['h', leaf, vals])
+        else:
+            c = rng.choice(plains)
+            vals = [pick(t) for t, p in fks[c]]
+            pid[c] = pid.get(c, 0) + 1
+            have[c].append(pid[c])
+            objects.append(['p', c, vals])
+    return {'mode': 'inherit', 'cache': cached, 'depth': depth, 'plains': plains, 'fks': fks, 'objects': objects, 'victim': 0}
+
+
+def run_inherit(ctx):
+    rng = ctx.rng
+    d = os.path.join(os.path.dirname(os.path.dirname(os.path.abspath(__file__))), 'corpus', 'C12', 'inherit')
+    cases = []
+    for path in sorted(glob.glob(os.path.join(d, '*.json'))):
+        data = json.load(open(path))
+        for case in (data if isinstance(data, list) else [data]):
+            for cached in (True, False):
+                c = dict(case)
+                c['cache'] = cached
+                cases.append(c)
+    for sidx in range(ctx.budget(220, 4000)):
+        base = gen_inherit_case(rng, cached=(sidx % 3 != 0))
+        for v in range(len(base['objects'])):
+            c = dict(base)
+            c['victim'] = v
+            cases.append(c)
+    for case in cases:
+        h_run(ctx, case)
+
+
+def limit_reports(ctx, per_kind=4):
+    """the framework keeps the first 200 oracle failures only: report each kind of failure a few times, so that the
+    replays of a recorded finding (one per generated cascade cycle) cannot crowd out a different failure"""
+    seen = {}
+    orig = ctx.oracle_fail
+
+    def limited(key, what, case):
+        kind = ':'.join(key.split(':')[:2])
+        seen[kind] = seen.get(kind, 0) + 1
+        if seen[kind] <= per_kind:
+            orig(key, what, case)
+        else:
+            ctx.count('further failures of kind %s (not listed)' % kind)
+    ctx.oracle_fail = limited
+
+
 def run(ctx):
     sqlo.setup()
+    limit_reports(ctx)
     cases = list(gen_cases(ctx))
     outs = ctx.model([model_line(c) for c in cases])
     for idx, case in enumerate(cases):
@@ -610,12 +937,11 @@ def run(ctx):
             ctx.compare('link tables after: model = raw dump', case, m[2], links)
             ctx.compare('ids get() still returns: model = real cache+table', case, m[3], sorted(tuple(x) for x in reach))
             ctx.compare('outcome: walk of the original graph (trav) = destroySelf', case, m[4], outcome)
+    run_inherit(ctx)
 
 
 def replay(case):
     sqlo.setup()
-    impl = run_impl(case)
-    exp = oracle(case)
 
     class C:
         fails = []
@@ -625,7 +951,18 @@ def replay(case):
 
         def count(self, *a):
             pass
+
+        def case(self, *a, **k):
+            pass
     c = C()
+    if case.get('mode') == 'inherit':
+        h_run(c, case)
+        text = 'oracle: closure objects %r, restricting rows %r\n' % (sorted(h_oracle(case)['closure']), h_oracle(case)['restrictors'])
+        for k, w in c.fails:
+            text += 'FAIL [%s] %s\n' % (k, w)
+        return not c.fails, text
+    impl = run_impl(case)
+    exp = oracle(case)
     judge(c, case, impl)
     text = 'implementation: %r\nproperty      : %r\n' % (impl[:4], exp[:4])
     for k, w in c.fails:
